@@ -4,7 +4,12 @@ use serde::ser::SerializeStruct;
 use serde::{Deserialize, Deserializer, Serialize, Serializer};
 use std::fmt;
 use std::str::FromStr;
+#[cfg(not(pricelevel_verif))]
 use std::sync::atomic::{AtomicU64, AtomicUsize, Ordering};
+#[cfg(pricelevel_verif)]
+use crate::verif_hooks::{AtomicU64, AtomicUsize};
+#[cfg(pricelevel_verif)]
+use std::sync::atomic::Ordering;
 use std::time::{SystemTime, UNIX_EPOCH};
 
 /// Tracks performance statistics for a price level
